@@ -194,25 +194,50 @@ fn count_nodes(p: &Prog) -> u64 {
 }
 /// wrap the k-th expression node (pre-order over all bodies) in `depth` pairs of parentheses
 fn paren_at(p: &Prog, k: u64, depth: usize) -> (Prog, String) {
+    wrap_at(p, k, &|inner| {
+        let mut w = inner;
+        for _ in 0..depth {
+            w = E::Paren(Box::new(w));
+        }
+        w
+    })
+}
+/// number of expression nodes of `p` (the positions `wrap_at` / `stage_at` accept)
+pub fn n_nodes(p: &Prog) -> u64 {
+    count_nodes(p)
+}
+/// the k-th expression node quoted and spliced back on the spot (C09): mode 0 `$(`(e))`, mode 1 through the identity
+/// macro `id!(`(e))`, mode 2 through a macro that let-binds the code value first `once!(`(e))`
+pub const STAGE_MODES: [&str; 3] = ["quote_then_splice", "identity_macro", "macro_stage_let"];
+pub const STAGE_PRELUDE: &str = "#stage(macro)\nfn id(c) {\n  c\n}\nfn once(c) {\n  let k = c\n  k\n}\n#stage(main)\n";
+pub fn stage_at(p: &Prog, k: u64, mode: usize) -> (Prog, String) {
+    wrap_at(p, k, &|inner| {
+        // a block is quoted as a block (`{ .. }); anything else in parentheses
+        let t = if matches!(inner, E::Block(..)) { pe(&inner, 1) } else { format!("({})", pe(&inner, 1)) };
+        E::Raw(match mode {
+            0 => format!("$(`{t})"),
+            1 => format!("id!(`{t})"),
+            _ => format!("once!(`{t})"),
+        })
+    })
+}
+/// rebuild `p` with its k-th expression node (pre-order over all bodies) replaced by `w(node)`; also says what the node is
+fn wrap_at(p: &Prog, k: u64, w: &dyn Fn(E) -> E) -> (Prog, String) {
     let mut counter = 0u64;
     let mut ctx = String::new();
     let mut wrap = |e: &E| -> E {
-        fn go(e: &E, counter: &mut u64, k: u64, depth: usize, ctx: &mut String, role: &str) -> E {
+        fn go(e: &E, counter: &mut u64, k: u64, w: &dyn Fn(E) -> E, ctx: &mut String, role: &str) -> E {
             let me = *counter;
             *counter += 1;
-            let inner = map_children(e, &mut |c, r| go(c, counter, k, depth, ctx, r));
+            let inner = map_children(e, &mut |c, r| go(c, counter, k, w, ctx, r));
             if me == k {
                 *ctx = format!("{role} of kind {}", kind(e));
-                let mut w = inner;
-                for _ in 0..depth {
-                    w = E::Paren(Box::new(w));
-                }
-                w
+                w(inner)
             } else {
                 inner
             }
         }
-        go(e, &mut counter, k, depth, &mut ctx, "body")
+        go(e, &mut counter, k, w, &mut ctx, "body")
     };
     let items = p
         .items
